@@ -768,13 +768,36 @@ func (x *g) fieldOptions(c *desc.Case, cfg *desc.Config) {
 		}
 	}
 	// custom_types entries for plain string fields drawn by customField (no gogo option): by full path
-	if x.opt.Customs {
-		for _, o := range occ {
-			if o.f.Type == "string" && o.f.Card == "single" && o.f.CustomType == "" && o.f.CastType == "" && o.f.Oneof < 0 && !o.underEmbed && x.r.P(8) {
-				withSuffix := x.r.P(50)
-				cfg.CustomTypes = append(cfg.CustomTypes, desc.KV{K: o.path, V: "CfgCustomC"})
-				x.addHook("CfgCustomC", "string", false, withSuffix, false)
+	var exclPaths []string
+	for _, o := range occ {
+		if excl[o.typeName] {
+			exclPaths = append(exclPaths, o.path)
+		}
+	}
+	visible := func(o occurrence) bool {
+		for _, p := range exclPaths {
+			if o.path == p || strings.HasPrefix(o.path, p+".") {
+				return false
 			}
+		}
+		return true
+	}
+	if x.opt.Customs {
+		var cands []occurrence
+		for _, o := range occ {
+			if visible(o) && o.f.Type == "string" && o.f.Card == "single" && o.f.CustomType == "" && o.f.CastType == "" && o.f.Oneof < 0 && !o.underEmbed {
+				cands = append(cands, o)
+			}
+		}
+		for i := len(cands) - 1; i > 0; i-- {
+			j := x.r.Intn(i + 1)
+			cands[i], cands[j] = cands[j], cands[i]
+		}
+		n := x.r.Intn(3) // 0, 1 or 2 configuration-made custom types per case
+		withSuffix := x.r.P(80)
+		for i := 0; i < n && i < len(cands); i++ {
+			cfg.CustomTypes = append(cfg.CustomTypes, desc.KV{K: cands[i].path, V: "CfgCustomC"})
+			x.addHook("CfgCustomC", "string", false, withSuffix, false)
 		}
 		cfg.CustomTypes = dedupKV(cfg.CustomTypes)
 	}
